@@ -633,30 +633,41 @@ theorem C05.cembed_adj (cj : K →+* K) (hcj : ∀ a, cj (cj a) = a) (I : K) (S 
     intro φ _ x y _ _
     rw [dot_smul_left, dot_smul_right cj hcj]
 
-/-- ComponentProjection(P, index) for an int / slice / list index with distinct entries, onto
-the sub-product space carrying the same weights: the adjoint is ComponentProjectionAdjoint
-(`out = 0; out[index] = y`), for any number and sizes of components. -/
+/-- ComponentProjection(P, index) for an int / slice / list index with distinct entries, with
+ARBITRARY non-zero real weights on the product space and on the sub-space: the adjoint is
+ComponentProjectionAdjoint (`out = 0; out[index] = y`) after scaling component `k` by the
+weight ratio `v_k / w_index[k]`; any number and sizes of components. -/
 theorem C05.proj_adj (cj : K →+* K) (I : K) (P Q : Space K) (idx : Nat → Nat) :
     LeafOK cj I (.proj P Q idx) := by
   intro t' hw ha
-  obtain ⟨hreal, hk, hinj⟩ := hw
+  obtain ⟨hreal, hk, hWP, hWQ, hinj⟩ := hw
   simp [Leaf.adj] at ha; subst ha
   simp only [Leaf.dom, Leaf.ran, Impl.run, Leaf.run, Leaf.needRe]
   refine ⟨?_, ?_, ?_⟩
   · intro x hx h j i; exact hx (by rw [← hreal]; exact h) _ _
   · intro y hy h j i
-    show cj (assignTo idx y j i Q.m) = assignTo idx y j i Q.m
-    rw [assignTo_eq_sum idx y j i Q.m hinj, map_sum]
+    show cj (assignTo idx _ j i Q.m) = assignTo idx _ j i Q.m
+    rw [assignTo_eq_sum idx _ j i Q.m hinj, map_sum]
     refine sum_congr rfl fun k _ => ?_
-    rw [apply_ite cj, map_zero, hy (by rw [hreal]; exact h)]
+    rw [apply_ite cj, map_zero, map_mul, map_div₀, hWP _ _, hWQ _ _,
+      hy (by rw [hreal]; exact h)]
   · intro φ _ x y _ _
-    rw [proj_dot cj P Q idx hk hinj]
+    congr 1
+    let Q' : Space K := { Q with W := fun k i => P.W (idx k) i }
+    have h1 : dot cj Q (fun j i => x (idx j) i) y =
+        dot cj Q' (fun j i => x (idx j) i)
+          (fun k i => y k i * (Q.W k i / P.W (idx k) i)) := by
+      simp only [dot_eq, Q', map_mul, map_div₀, hWP _ _, hWQ _ _]
+      refine sum_congr rfl fun k hk' => sum_congr rfl fun i _ => ?_
+      have := ((hk k (mem_range.mp hk')).2.2 i).1
+      field_simp
+    rw [h1, proj_dot cj P Q' idx (fun k hk' => ⟨(hk k hk').1, (hk k hk').2.1, fun _ => rfl⟩) hinj]
 
-/-- ComponentProjectionAdjoint ↦ ComponentProjection: the reverse direction. -/
+/-- ComponentProjectionAdjoint ↦ (weight ratios) ∘ ComponentProjection: the reverse direction. -/
 theorem C05.proj_adjoint_adj (cj : K →+* K) (I : K)
     (Q P : Space K) (idx : Nat → Nat) : LeafOK cj I (.projAdj Q P idx) := by
   intro t' hw ha
-  obtain ⟨hreal, hk, hinj⟩ := hw
+  obtain ⟨hreal, hk, hWP, hWQ, hinj⟩ := hw
   simp [Leaf.adj] at ha; subst ha
   simp only [Leaf.dom, Leaf.ran, Impl.run, Leaf.run, Leaf.needRe]
   refine ⟨?_, ?_, ?_⟩
@@ -665,9 +676,20 @@ theorem C05.proj_adjoint_adj (cj : K →+* K) (I : K)
     rw [assignTo_eq_sum idx y j i Q.m hinj, map_sum]
     refine sum_congr rfl fun k _ => ?_
     rw [apply_ite cj, map_zero, hy (by rw [hreal]; exact h)]
-  · intro x hx h j i; exact hx (by rw [← hreal]; exact h) _ _
+  · intro x hx h j i
+    have := hx (by rw [← hreal]; exact h) (idx j) i
+    simp [this, hWP _ _, hWQ _ _]
   · intro φ _ y x _ _
-    rw [proj_dot' cj P Q idx hk hinj]
+    congr 1
+    let Q' : Space K := { Q with W := fun k i => P.W (idx k) i }
+    have h1 : dot cj Q' y (fun j i => x (idx j) i) =
+        dot cj Q y (fun k i => x (idx k) i * (P.W (idx k) i / Q.W k i)) := by
+      simp only [dot_eq, Q', map_mul, map_div₀, hWP _ _, hWQ _ _]
+      refine sum_congr rfl fun k hk' => sum_congr rfl fun i _ => ?_
+      have := ((hk k (mem_range.mp hk')).2.2 i).2
+      field_simp
+    rw [← h1]
+    exact proj_dot' cj P Q' idx (fun k hk' => ⟨(hk k hk').1, (hk k hk').2.1, fun _ => rfl⟩) hinj y x
 
 /-- Every modelled leaf satisfies its adjoint contract under its conditions `Leaf.WT`; only
 for `opaque` leaves (operators without an executable model: finite differences, resizing,
@@ -936,12 +958,11 @@ theorem C05.adj_adj_partial (cj : K →+* K) (hcj : ∀ a, cj (cj a) = a) (I : K
         obtain ⟨r'', hr2, rr⟩ := ihr rest' hs.2 hl.2 er
         exact ⟨.pcons r c a'' r'', by simp [Impl.adj, ha2, hr2], by simp [Impl.run, ra, rr]⟩
 
-/-- Zero, PointwiseInner ↔ PointwiseInnerAdjoint and ComponentProjection ↔
-ComponentProjectionAdjoint return to the same leaf under a second `.adjoint`. -/
+/-- Zero and PointwiseInner ↔ PointwiseInnerAdjoint return to the same leaf under a second
+`.adjoint`. -/
 theorem C05.leaf_adj_adj (cj : K →+* K) (hcj : ∀ a, cj (cj a) = a) (I : K) (l : Leaf K)
     (h : match l with
-      | .zero _ _ | .pwInner _ _ _ _ _ | .pwInnerAdj _ _ _ _ _ | .proj _ _ _
-      | .projAdj _ _ _ => True
+      | .zero _ _ | .pwInner _ _ _ _ _ | .pwInnerAdj _ _ _ _ _ => True
       | _ => False) :
     (Impl.leaf l).leavesAA cj I := by
   intro t' ha
